@@ -43,6 +43,9 @@ BOUNDED = {
 
 # properties decided by the bounded stand-in, with a PART of their chain under discharged contracts (the proved part is named; the level stays "exploration")
 MIXED = {
+ "C01": "Proved by pyvc+z3: the worker-side data path Memory.handle (the value is kept under exactly its dataset id; when published, the serialised value - all of its bytes, with the decoding function "
+        "the serialiser chose - is written to shared memory under the dataset's own key and the dataset is announced once, after the buffer is closed, never on failure) and Memory.provide (a held value is "
+        "handed out unchanged; otherwise it is fetched under the dataset's own key and decoded with the function stored next to the bytes) - 23 VCs. ser_output/des_output are uninterpreted. ",
  "C02": "Proved by pyvc+z3 (for all inputs): controller.act.act sends exactly the assignment's tasks to the assignment's worker and only transfers datasets into the assignment's host; notify.is_last_output_of. ",
  "C03": "Proved by pyvc+z3: scheduler.core.has_awaitable / has_computable agree with their definitions over the whole State (the loop guard of controller.impl.run). ",
  "C04": "Proved by pyvc+z3: notify.consider_purge purges a dataset only when no task that consumes it is still to run / running and it is not a requested output still to be fetched, and touches no other dataset; "
